@@ -18,7 +18,8 @@ RULE = ('case = up to 6 requests with patterns sharing prefixes of length 1..4 a
         '(request script, loss script, observed transmission-time vector).')
 ASSUMPTIONS = ['virtual time: library processing takes zero time, so retransmission instants are exact',
                'two requests with identical patterns pending at once are not generated (the library keys timers by pattern)']
-REQUIRED = ['mon.requests_issued_from_the_callback_of_the_previous_answer_with_the_same_expectation',
+REQUIRED = ['mon.cases_with_a_second_crazyflie_object_waiting_for_the_same_answer',
+            'mon.requests_issued_from_the_callback_of_the_previous_answer_with_the_same_expectation',
             'mon.sessions_ended_by_a_link_error_with_requests_pending', 'mon.connection_attempts_failed_with_requests_pending', 'mon.requests', 'mon.retransmissions_expected', 'mon.retransmissions_observed', 'mon.cancelled_by_reply',
             'mon.never_answered_windows', 'mon.reliable_link_cases', 'mon.close_reopen_cases', 'mon.timers_observed',
             'mon.shared_prefix_cases', 'mon.requests_sent_while_the_link_was_being_closed',
@@ -44,6 +45,7 @@ def cases(tier, seed):
 
 
 RACER_UID = 199
+BYSTANDER_UID = 198
 
 
 class Responder(simcf.SimCF):
@@ -349,6 +351,12 @@ def run(desc, ctx):
     spec = simlink.LinkSpec(dev, needs_resending=needs, latency=0.0)
     uri = 'sim://c10'
     simlink.SIMS[uri] = spec
+    bystander = kind in ('patterns', 'reopen') and needs and desc['seed'] % 3 == 0
+    if bystander:
+        dev2 = Responder(gen.profile(desc['seed'] + 5, 1, 1, proto=10), {})
+        spec2 = simlink.LinkSpec(dev2, needs_resending=True, latency=0.0)
+        uri2 = 'sim://c10b'
+        simlink.SIMS[uri2] = spec2
     # the link asks the device; delayed replies are injected by the harness wrapper below
     ob = {'sessions': [], 'problems': [], 'sent_at': {}, 'sent_seq': {}, 'close_at': None, 'reopen_at': None, 't_end': None}
 
@@ -370,6 +378,22 @@ def run(desc, ctx):
             return True
         if not connect():
             return
+        if bystander:
+            # another Crazyflie object of the same process (a swarm member) on a link of its own has the SAME expected
+            # answer pending, and that answer never comes: its retries are its own business
+            cf2 = Crazyflie()
+            done2 = ds.Event()
+            cf2.connected.add_callback(lambda u: done2.set())
+            cf2.open_link(uri2)
+            if not done2.wait(300.0):
+                ob['problems'].append('bystander connect failed')
+                return
+            s.sleep(0.35)
+            pkb = CRTPPacket()
+            pkb.set_header(PORT, reqs[0]['chan'])
+            pkb.data = bytes(reqs[0]['pattern']) + bytes([BYSTANDER_UID])
+            ob['bystander_sent_at'] = s.now
+            cf2.send_packet(pkb, expected_reply=tuple(reqs[0]['pattern']), timeout=reqs[0]['T'])
         t_base = s.now
         ob['t_base'] = t_base
         ob['session1'] = cf.link.session
@@ -435,6 +459,10 @@ def run(desc, ctx):
         if kind == 'reopen' and racer_th is not None:
             racer_th.join()
         ob['t_end'] = s.now
+        if bystander:
+            ob['bystander_tx'] = [t[0] for t in spec2.tx if (t[2] >> 4) & 0xF == PORT and t[3] and t[3][-1] == BYSTANDER_UID]
+            ob['bystander_end'] = s.now
+            cf2.close_link()
         ob['timers'] = [(t.interval, t.created_at, t.fired_at, t.cancelled_at) for t in getattr(s, 'timers', [])]
         ob['patterns_left'] = len(cf._answer_patterns)
         ob['tx_end'] = len(spec.tx)
@@ -458,6 +486,15 @@ def run(desc, ctx):
     if ob['problems']:
         V('retry:' + ob['problems'][0].replace(' ', '-'), {})
         return
+    if bystander and 'bystander_tx' in ob:
+        ctx.count('mon.cases_with_a_second_crazyflie_object_waiting_for_the_same_answer')
+        T0 = reqs[0]['T']
+        span = ob['bystander_end'] - ob['bystander_sent_at']
+        n = len(ob['bystander_tx']) - 1
+        if n < int(span / T0) - 1:
+            V('retry:request-of-another-crazyflie-object-stopped-being-retried',
+              {'T': T0, 'window': span, 'retransmissions': n, 'expected_at_least': int(span / T0) - 1,
+               'offsets': [round(t - ob['bystander_sent_at'], 4) for t in ob['bystander_tx'][:8]]})
     tx = spec.tx[ob['tx0']:]
     rx = spec.rx[ob['rx0']:]
     mine_tx = [t for t in tx if (t[2] >> 4) & 0xF == PORT]
